@@ -297,7 +297,7 @@ pub fn run(cx: &mut Ctx) {
     });
     cx.case("all_type_bytes", |c| {
         c.sit("all_type_bytes");
-        for t in 0..=255u8 {
+        for t in (0..=255u8).step_by(if cfg!(miri) { 15 } else { 1 }) {
             check(c, &[t, 3, 0, 0, 0x00, b'a', b'b', b'c'], "type byte sweep");
             check(c, &[0x13, 8, 0, 0, t, 3, 0, 0, 0x00, b'a', b'b', b'c'], "inner type byte sweep");
         }
@@ -400,7 +400,7 @@ pub fn run(cx: &mut Ctx) {
         });
     }
     // ---- random conforming streams (+ prefixes / corruptions)
-    let n = cx.a.n(100_000, 1_500_000);
+    let n = cx.a.n(300_000, 2_000_000);
     let quick = cx.a.quick();
     for i in 0..n {
         cx.case("random_tokens", |c| {
